@@ -1,12 +1,256 @@
-(** C23 property theorems: statements only (placeholder header, rewritten below). *)
+(** C23 "Measures compute what their definitions say" -- property theorems: statements only, each closed by [exact];
+    the proofs are in C23/C23_Proofs.v, C23_Arith.v, C23_Extreme.v, C23_Delay.v.  All statements are about the executable
+    model C23/C23_Model.v (hand-written from MeasureImplementation.h / Measure.h / StateImpl.h, Release semantics), over
+    the reals (ROps).  The model is tied to the code on every run of checks/C23.py: extracted to OCaml and compared
+    (1) after every operation of generated operation sequences executed on a real SimTK::State + System, and (2) at every
+    state returned by real integrators, whose auto-update time sequence is recorded by a user-defined measure.
+
+    PARTIAL.  What is proved, for ALL operation sequences / trees / buffers:
+    - arith_eval_correct: the lazily cached Constant/Time/Variable/Sinusoid/Plus/Minus/Scale trees return their formula at
+      the current time and variable values (cache never stale) under two provisos, each shown necessary by a refuted
+      statement that is a known finding of the code (arith_eval_refuted_variable, arith_eval_refuted_early_get);
+    - reported_derivatives_are_derivatives / sinusoid_derivs: every derivative order the leaf measures offer (Sinusoid: 1..3,
+      the code offers no more) is the time derivative of the next lower order (Coquelicot is_derive);
+    - extreme_is_fold + fold_is_extreme + fold_keeps_first + vfold_nth: Minimum/Maximum/MinAbs/MaxAbs (element-wise on
+      vectors) return the signed sample of extreme key over the initial value, the operand at every state where the
+      auto-update ran after the measure had been evaluated, and the current state; Extreme::setValue is excluded for a
+      reason (extreme_setvalue_refuted, known finding);
+    - Delay: copy_keeps_sorted, delay_buffer_returns_bracketing_sample (+ exhaustive cases; interpolation between the two
+      bracketing samples, flat before the first, EXTRAPOLATION through the last two when t - delay is after the newest
+      sample, also for delay = 0), prune_preserves_answers (pruning never changes an answer at or after t - delay, delay >= 0),
+      delay_is_calc_on_buffer (the state machine: buffer changes only by copyInAndUpdate at an auto-update, getValue =
+      calcValueAtTimeLinearOnly on the buffer present when first asked at the current time), lerp_affine_exact;
+    - sample_hold_holds: SPECIFICATION ONLY -- Measure::SampleAndHold is declared in Measure.h but has no implementation
+      in the source, so there is nothing to tie it to;
+    - Differentiate (finite differences): the formula (f_ensure_value), exact on affine operands, second-order form exact
+      on quadratics; Integrate: zdot := integrand (specification).
+    NOT DECIDED: Integrate accuracy (integrator dependent), Differentiate accuracy on general operands, the Delay
+    interpolation/extrapolation error against the operand's true value at t - delay, that the pruned buffer after MANY
+    updates still answers like the full history (proved for one update; checked on every run against the Python
+    interpolant of the recorded history), cubic interpolation (not implemented), floating point (theorems are over R). *)
 From Coq Require Import List Arith Bool PeanoNat ZArith Reals.
 From Coquelicot Require Import Coquelicot.
-Require Import Num C23_Model C23_Proofs.
+Require Import Num C23_Model C23_Proofs C23_Arith C23_Extreme C23_Delay.
 Import ListNotations.
 Local Open Scope R_scope.
 
+(* ---------------- from C23_Proofs.v *)
 Theorem C23_sinusoid_derivs a w p k t : (k < 3)%nat ->
   is_derive (sin_d ROps a w p k) t (sin_d ROps a w p (S k) t).
 Proof. exact (sinusoid_derivs a w p k t). Qed.
 Print Assumptions C23_sinusoid_derivs.
 
+Theorem C23_reported_derivatives_are_derivatives (E : Env) m k : is_leaf m -> k_ok m (S k) = true ->
+  is_derive (fun t => den_k (at_time E t) m k) (e_t E) (den_k E m (S k)).
+Proof. exact (reported_derivatives_are_derivatives E m k). Qed.
+Print Assumptions C23_reported_derivatives_are_derivatives.
+
+Theorem C23_sample_hold_holds src t0 ops1 advances :
+  List.Forall (fun o => exists x, o = ShAdvance x) advances ->
+  let '(t1, m1) := sh_run ROps src t0 (ops1 ++ [ShEvent]) in
+  h_val (snd (sh_run ROps src t0 (ops1 ++ [ShEvent] ++ advances))) = veval ROps src t1 /\
+  h_val m1 = veval ROps src t1 /\ h_time (snd (sh_run ROps src t0 (ops1 ++ [ShEvent] ++ advances))) = t1.
+Proof. exact (sample_hold_holds src t0 ops1 advances). Qed.
+Print Assumptions C23_sample_hold_holds.
+
+Theorem C23_f_ensure_value (E : Env) (m : @difm R) e f0 fd0 good0 t0 :
+  valid E (vdep (f_src m)) (f_upd m) = false -> f_src m = [e] -> f_dv m = ([f0], [fd0], good0) -> f_dvt m = Some t0 ->
+  e_t E <> t0 ->
+  ce_val (f_upd (f_ensure ROps E m)) =
+  ([peval ROps e (e_t E)],
+   [if good0 then 2 * ((peval ROps e (e_t E) - f0) / (e_t E - t0)) - fd0 else (peval ROps e (e_t E) - f0) / (e_t E - t0)], true).
+Proof. exact (f_ensure_value E m e f0 fd0 good0 t0). Qed.
+Print Assumptions C23_f_ensure_value.
+
+Theorem C23_differentiate_exact_on_affine a c f0 t t0 : t <> t0 -> f0 = a * t0 + c -> ((a * t + c) - f0) / (t - t0) = a.
+Proof. exact (differentiate_exact_on_affine a c f0 t t0). Qed.
+Print Assumptions C23_differentiate_exact_on_affine.
+
+Theorem C23_differentiate_second_order_exact_on_quadratics a b c t t0 : t <> t0 ->
+  let f := fun x => a * x * x + b * x + c in
+  2 * ((f t - f t0) / (t - t0)) - (2 * a * t0 + b) = 2 * a * t + b.
+Proof. exact (differentiate_second_order_exact_on_quadratics a b c t t0). Qed.
+Print Assumptions C23_differentiate_second_order_exact_on_quadratics.
+
+Theorem C23_integrate_zdot_is_integrand (src : @pexpr R) t (m : @intm R) : i_zdot (i_acc ROps src t m) = peval ROps src t /\ i_z (i_acc ROps src t m) = i_z m.
+Proof. exact (integrate_zdot_is_integrand src t m). Qed.
+Print Assumptions C23_integrate_zdot_is_integrand.
+
+(* ---------------- from C23_Arith.v *)
+Theorem C23_tget_correct (E : Env) m : dep m <= e_stage E -> J E m -> fst (tget ROps E m) = den E m /\ J E (snd (tget ROps E m)).
+Proof. exact (tget_correct E m). Qed.
+Print Assumptions C23_tget_correct.
+
+Theorem C23_step_inv (s : St) (o : Op) : Inv s -> well_staged s o -> Inv (fst (step ROps s o)).
+Proof. exact (step_inv s o). Qed.
+Print Assumptions C23_step_inv.
+
+Theorem C23_arith_eval_correct (s : St) (ops : list Op) : Inv s -> ws_run s ops -> obs_run s ops.
+Proof. exact (arith_eval_correct s ops). Qed.
+Print Assumptions C23_arith_eval_correct.
+
+Theorem C23_run_obs_nth (s : St) (ops : list Op) : forall j o, nth_error ops j = Some o ->
+  exists sj, nth_error (snd (run ROps s ops)) j = Some (snd (step ROps sj o)) /\
+             (obs_run s ops -> obs_ok sj o (snd (step ROps sj o))).
+Proof. exact (run_obs_nth s ops). Qed.
+Print Assumptions C23_run_obs_nth.
+
+Theorem C23_Inv_init t vars trees machs :
+  (forall i g, var_stage (env0 t vars) i = Some g -> 1 <= g) ->
+  Forall (fun m => erase m = m) trees -> Forall (wf_vars (env0 t vars)) trees ->
+  Inv (mkSt (env0 t vars) trees machs).
+Proof. exact (Inv_init t vars trees machs). Qed.
+Print Assumptions C23_Inv_init.
+
+Theorem C23_arith_eval_correct_example :
+  let s := mkSt (env0 1%R [(5%R, 4)]) [mk_scale ROps 2%R (mk_plus ROps (MVar 0) (mk_sin ROps 1%R 3%R 0%R))] [] in
+  let ops := [Realize 8; GetT 0 [] 0; SetVar 0 7%R; Realize 4; GetT 0 [] 0; SetTime 2%R; Realize 8; GetT 0 [false] 0;
+              GetT 0 [false; true] 2; GetT 0 [] 0] in
+  Inv s /\ ws_run s ops /\ obs_run s ops /\
+  nth_error (snd (run ROps s ops)) 9 = Some (OVal [2 * (7 + 1 * sin (3 * 2 + 0))])%R.
+Proof. exact (@arith_eval_correct_example). Qed.
+Print Assumptions C23_arith_eval_correct_example.
+
+Theorem C23_arith_eval_refuted_variable : exists (s : St) (ops : list Op),
+  env_wf (s_env s) /\ vars_pos (s_env s) /\ Forall (J (s_env s)) (s_trees s) /\ ws_run s ops /\ ~ obs_run s ops.
+Proof. exact (@arith_eval_refuted_variable). Qed.
+Print Assumptions C23_arith_eval_refuted_variable.
+
+Theorem C23_arith_eval_refuted_early_get : exists (s : St) (ops : list Op),
+  Inv s /\ (forall j, nth_error (snd (run ROps s ops)) j <> Some OGuard) /\ ~ obs_run s ops.
+Proof. exact (@arith_eval_refuted_early_get). Qed.
+Print Assumptions C23_arith_eval_refuted_early_get.
+
+(* ---------------- from C23_Extreme.v *)
+Theorem C23_x_ensure_spec (E : Env) x init G : XI E x init G -> vdep (x_src x) <= e_stage E ->
+  let cur := veval ROps (x_src x) (e_t E) in
+  let r := x_ensure ROps E x in
+  XI E (snd r) init G /\ fst r = any_new ROps (x_op x) cur (x_dv x) /\ x_dv (snd r) = x_dv x /\
+  x_op (snd r) = x_op x /\ x_src (snd r) = x_src x /\ x_dvt (snd r) = x_dvt x /\
+  (fst r = true -> valid E (vdep (x_src x)) (x_upd (snd r)) = true /\
+                   ce_val (x_upd (snd r)) = vextreme ROps (x_op x) cur (x_dv x)).
+Proof. exact (x_ensure_spec E x init G). Qed.
+Print Assumptions C23_x_ensure_spec.
+
+Theorem C23_x_auto_spec (E : Env) x init G : XI E x init G ->
+  XI E (x_auto E x) init (if valid E (vdep (x_src x)) (x_newupd x) then G ++ [veval ROps (x_src x) (e_t E)] else G) /\
+  x_op (x_auto E x) = x_op x /\ x_src (x_auto E x) = x_src x.
+Proof. exact (x_auto_spec E x init G). Qed.
+Print Assumptions C23_x_auto_spec.
+
+Theorem C23_step_XS (s : St) j o src init G (op : Op) : XS s j o src init G -> x_allowed j op ->
+  XS (fst (step ROps s op)) j o src init (ghost_step s j op G).
+Proof. exact (step_XS s j o src init G op). Qed.
+Print Assumptions C23_step_XS.
+
+Theorem C23_extreme_is_fold (s : St) j o src init G (ops : list Op) :
+  XS s j o src init G -> Forall (x_allowed j) ops -> x_run_ok s j o src init G ops.
+Proof. exact (extreme_is_fold s j o src init G ops). Qed.
+Print Assumptions C23_extreme_is_fold.
+
+Theorem C23_XS_init t vars trees machs j o src init :
+  nth_error machs j = Some (MX (mk_ext o src init)) -> length init = length src ->
+  XS (mkSt (env0 t vars) trees machs) j o src init [].
+Proof. exact (XS_init t vars trees machs j o src init). Qed.
+Print Assumptions C23_XS_init.
+
+Theorem C23_XI_x_set (E : Env) x init G v : env_wf E -> XI E x init G ->
+  ~ fresh (inval E 7) (vdep (x_src x)) (x_newupd x) -> length v = length (x_src x) ->
+  XI (inval E 7) (x_set (inval E 7) x v) v [].
+Proof. exact (XI_x_set E x init G v). Qed.
+Print Assumptions C23_XI_x_set.
+
+Theorem C23_fold_is_extreme o l : forall init, In (sfold o init l) (init :: l) /\ forall s, In s (init :: l) -> key o (sfold o init l) <= key o s.
+Proof. exact (fold_is_extreme o l). Qed.
+Print Assumptions C23_fold_is_extreme.
+
+Theorem C23_fold_keeps_first o l init : (forall s, In s l -> key o init <= key o s) -> sfold o init l = init.
+Proof. exact (fold_keeps_first o l init). Qed.
+Print Assumptions C23_fold_keeps_first.
+
+Theorem C23_vfold_nth o (d : R) : forall (G : list Vec) init i, (forall s, In s G -> length s = length init) -> (i < length init)%nat ->
+  nth i (vfold o init G) d = sfold o (nth i init d) (map (fun s => nth i s d) G).
+Proof. exact (vfold_nth o d). Qed.
+Print Assumptions C23_vfold_nth.
+
+Theorem C23_extreme_is_fold_example :
+  let s := mkSt (env0 1 []) [] [MX (mk_ext Maximum [PTime] [0])] in
+  let ops := [Realize 8; AutoUpd; SetTime (1/2); Realize 8; GetM 0] in
+  XS s 0%nat Maximum [PTime] [0] [] /\ Forall (x_allowed 0) ops /\
+  nth_error (snd (run ROps s ops)) 4 = Some (OVal [1]).
+Proof. exact (@extreme_is_fold_example). Qed.
+Print Assumptions C23_extreme_is_fold_example.
+
+Theorem C23_extreme_setvalue_refuted :
+  (exists (s : St) (ops : list Op), XS s 0%nat Maximum [PTime] [0] [] /\
+     nth_error (snd (run ROps s ops)) 3 = Some OThrow) /\
+  (exists (s : St) (ops : list Op), XS s 0%nat Maximum [PTime] [10] [] /\
+     nth_error (snd (run ROps s ops)) 3 = Some (OVal [-5]) /\ vfold Maximum [-5] [[1]] = [1]).
+Proof. exact (@extreme_setvalue_refuted). Qed.
+Print Assumptions C23_extreme_setvalue_refuted.
+
+(* ---------------- from C23_Delay.v *)
+Theorem C23_copy_keeps_sorted (old : Buf) tE tNow v : sorted old -> sorted (copy_in_and_update ROps old tE tNow v).
+Proof. exact (copy_keeps_sorted old tE tNow v). Qed.
+Print Assumptions C23_copy_keeps_sorted.
+
+Theorem C23_delay_buffer_returns_bracketing_sample (b : Buf) td : sorted b -> b <> [] ->
+  (td <= tm b 0 -> calc_value_at ROps b td = Some (snd (nth 0 b dE))) /\
+  (forall i, (S i < length b)%nat -> tm b i < td <= tm b (S i) ->
+     calc_value_at ROps b td = Some (lerp_entries ROps (nth i b dE) (nth (S i) b dE) td)) /\
+  (tm b (length b - 1) < td ->
+     calc_value_at ROps b td = Some (if Nat.eqb (length b) 1 then snd (nth 0 b dE)
+                                     else lerp_entries ROps (nth (length b - 2) b dE) (nth (length b - 1) b dE) td)).
+Proof. exact (delay_buffer_returns_bracketing_sample b td). Qed.
+Print Assumptions C23_delay_buffer_returns_bracketing_sample.
+
+Theorem C23_bracketing_cases_exhaustive (b : Buf) td : sorted b -> b <> [] ->
+  td <= tm b 0 \/ (exists i, (S i < length b)%nat /\ tm b i < td <= tm b (S i)) \/ tm b (length b - 1) < td.
+Proof. exact (bracketing_cases_exhaustive b td). Qed.
+Print Assumptions C23_bracketing_cases_exhaustive.
+
+Theorem C23_lerp_affine_exact a c t0 t1 td : t0 <> t1 ->
+  lerp_entries ROps (t0, [a * t0 + c]) (t1, [a * t1 + c]) td = [a * td + c].
+Proof. exact (lerp_affine_exact a c t0 t1 td). Qed.
+Print Assumptions C23_lerp_affine_exact.
+
+Theorem C23_lerp_at_later_sample t0 t1 v0 v1 : t0 <> t1 -> lerp_entries ROps (t0, [v0]) (t1, [v1]) t1 = [v1].
+Proof. exact (lerp_at_later_sample t0 t1 v0 v1). Qed.
+Print Assumptions C23_lerp_at_later_sample.
+
+Theorem C23_prune_preserves_answers (old : Buf) tE tNow v td : sorted old -> tE <= tNow -> tE <= td ->
+  calc_value_at ROps (copy_in_and_update ROps old tE tNow v) td =
+  calc_value_at ROps (firstn (count_to_last_earlier ROps old tNow) old ++ [(tNow, v)]) td.
+Proof. exact (prune_preserves_answers old tE tNow v td). Qed.
+Print Assumptions C23_prune_preserves_answers.
+
+Theorem C23_step_DS (s : St) j src delay bv (op : Op) : DS s j src delay bv -> op <> Init ->
+  DS (fst (step ROps s op)) j src delay (dghost_step s j op bv) /\
+  (forall d d', dmach s j = Some d -> dmach (fst (step ROps s op)) j = Some d' -> d_buf d' = dbuf_step s j op (d_buf d)) /\
+  (op = GetM j -> (4 <= e_stage (s_env s))%nat ->
+   snd (step ROps s op) = match calc_value_at ROps (dghost_step s j op bv) (e_t (s_env s) - delay) with
+                          | Some w => OVal w | None => ONaN end).
+Proof. exact (step_DS s j src delay bv op). Qed.
+Print Assumptions C23_step_DS.
+
+Theorem C23_delay_is_calc_on_buffer (s : St) j src delay bv (ops : list Op) :
+  DS s j src delay bv -> Forall (fun o => o <> Init) ops -> d_run_ok s j delay bv ops.
+Proof. exact (delay_is_calc_on_buffer s j src delay bv ops). Qed.
+Print Assumptions C23_delay_is_calc_on_buffer.
+
+Theorem C23_DS_init t vars trees machs j src delay bv :
+  nth_error machs j = Some (MD (mk_delay src delay)) -> DS (mkSt (env0 t vars) trees machs) j src delay bv.
+Proof. exact (DS_init t vars trees machs j src delay bv). Qed.
+Print Assumptions C23_DS_init.
+
+Theorem C23_DI_d_init (E : Env) d bv : DI E d bv -> DI E (d_init ROps E d) bv.
+Proof. exact (DI_d_init E d bv). Qed.
+Print Assumptions C23_DI_d_init.
+
+Theorem C23_delay_is_calc_on_buffer_example :
+  let s := mkSt (env0 0 []) [] [MD (mk_delay [PTime] (1/2))] in
+  let ops := [Realize 8; AutoUpd; SetTime 1; Realize 8; AutoUpd; SetTime 2; Realize 8; GetM 0] in
+  DS s 0%nat [PTime] (1/2) [] /\ Forall (fun o : Op => o <> Init) ops /\
+  exists v, nth_error (snd (run ROps s ops)) 7 = Some (OVal [v]) /\ v = 3/2.
+Proof. exact (@delay_is_calc_on_buffer_example). Qed.
+Print Assumptions C23_delay_is_calc_on_buffer_example.
